@@ -128,8 +128,9 @@ fn gen_case(seed: u64, idx: u64) -> Case {
         }
     }
     let ops = done;
-    let wraps = ops.iter().any(|o| matches!(o, Op::Write(a, d, _) if (*a as u128) + (d.len() as u128) >= (1u128 << 64)));
-    if wraps { tags.push("silent:region-end-not-u64".into()); }
+    let wraps = ops.iter().any(|o| matches!(o, Op::Write(a, d, _) if (*a as u128) + (d.len() as u128) > (1u128 << 64)));
+    if wraps { tags.push("silent:region-wraps".into()); }
+    if ops.iter().any(|o| matches!(o, Op::Write(a, d, _) if !d.is_empty() && (*a as u128) + (d.len() as u128) == (1u128 << 64))) { tags.push("has:region-ends-at-2^64".into()); }
     tags.push(format!("history:{}", if panicked { "panicked" } else { "completed" }));
     tags.push(format!("ops:{}", match ops.len() { 1 => "1", 2..=4 => "2-4", 5..=8 => "5-8", _ => "9+" }));
     if ops.iter().any(|o| matches!(o, Op::Set32(..))) { tags.push("has:set32".into()); }
